@@ -371,7 +371,17 @@ func (d *DotGit) NewObjectPack() (*PackWriter, error) {
 	if cleanErr != nil {
 		return nil, cleanErr
 	}
+
+	// The pack only exists once the writer is closed: a pack list built
+	// while the writer was open does not contain it.
+	pw.saved = d.forgetPackList
 	return pw, nil
+}
+
+// forgetPackList drops the cached pack catalog; the cached pack handles stay.
+func (d *DotGit) forgetPackList() {
+	d.packMap = nil
+	d.packList = nil
 }
 
 // NewPromisorObjectPack is NewObjectPack for a packfile received from a
